@@ -122,6 +122,10 @@ func (m *mdrv) settle() {
 	}
 	waitFor("out helper acks", func() bool { n, _ := ackState(m.ack); return n >= atomic.LoadInt64(&m.sentOK) })
 	_, s := ackState(m.ack)
+	if nohook {
+		time.Sleep(20 * time.Millisecond) // (no hook, no counter: give the reader goroutine time; nothing is judged in this mode)
+		return
+	}
 	waitFor("reader handled lines", func() bool { return atomic.LoadInt64(&handled) >= s })
 }
 
@@ -501,6 +505,19 @@ func main() {
 		fmt.Fprintln(os.Stderr, "usage: vh_mcat gen|rerun [flags]")
 		os.Exit(3)
 	}
+	// VERIF_NOHOOK: no tracer is installed.  The tracer's own lock and counter order the reader goroutine and the calling
+	// goroutine after every line, which HIDES data races between them from the race detector; hookless batches are run for
+	// the race log alone (quiescence is then a matter of waiting, so their call results are not judged)
+	nohook = os.Getenv("VERIF_NOHOOK") != ""
+	if !nohook {
+		installHook()
+	}
+	mainRest()
+}
+
+var nohook bool
+
+func installHook() {
 	midicatdrv.VerifSetHook(func(ev string) {
 		evMu.Lock()
 		evLog = append(evLog, ev)
@@ -509,6 +526,9 @@ func main() {
 			atomic.AddInt64(&handled, 1)
 		}
 	})
+}
+
+func mainRest() {
 	fs := flag.NewFlagSet(os.Args[1], flag.ExitOnError)
 	seed := fs.Int64("seed", 1, "")
 	n := fs.Int("n", 20, "")
